@@ -879,11 +879,11 @@ func (m *malRun) genAppNew(v *malView) map[string]interface{} {
 			shape += "+force-tag"
 		}
 		if c.chance(0.3) {
-			tags[siCommon.AppTagNamespaceResourceQuota] = []string{`{"resources":{"cpu":{"value":5}}}`, `{"resources":{"cpu":{"value":-5}}}`, `{`, ``, `{"resources":null}`}[c.pick(5)]
+			tags[siCommon.AppTagNamespaceResourceQuota] = []string{`{"resources":{"cpu":{"value":5}}}`, `{"resources":{"cpu":{"value":-5}}}`, `{`, ``, `{"resources":null}`, `{"resources":{"cpu":null}}`, `{"resources":{"cpu":{}}}`, `null`, `{"resources":{"":{"value":1}}}`, `[]`}[c.pick(10)]
 			shape += "+quota-tag"
 		}
 		if c.chance(0.3) {
-			tags[siCommon.AppTagNamespaceResourceGuaranteed] = []string{`{"resources":{"cpu":{"value":2}}}`, `garbage`, `{"resources":{"cpu":{"value":9223372036854775807}}}`}[c.pick(3)]
+			tags[siCommon.AppTagNamespaceResourceGuaranteed] = []string{`{"resources":{"cpu":{"value":2}}}`, `garbage`, `{"resources":{"cpu":{"value":9223372036854775807}}}`, `{"resources":{"mem":null,"cpu":{"value":1}}}`, `null`}[c.pick(5)]
 			shape += "+guaranteed-tag"
 		}
 		if c.chance(0.3) {
